@@ -114,7 +114,7 @@ fn sub_predicates(input: &[u8], st: &mut Stats) -> R {
 pub const SUBS: &[Sub] = &[Sub { name: "predicates", f: sub_predicates }];
 
 pub fn run(ctx: &Ctx) {
-    run_regress(ctx, SUBS);
+    run_regress(ctx, &all_subs());
     drive_enum(ctx, &SUBS[0], golden().core.len() as u64);
     crate::checks::builder::c16_run(ctx);
     ctx.exhaustive.store(true, std::sync::atomic::Ordering::Relaxed);
